@@ -10,6 +10,7 @@ import KDVerif.Lemmas.Interleaved
 import KDVerif.Lemmas.InterleavedStream
 import KDVerif.Lemmas.InterleavedBudget
 import KDVerif.Lemmas.InterleavedConcat
+import KDVerif.Lemmas.C04Extra
 
 namespace KDVerif.C04
 open KDVerif.Interleaved
@@ -286,5 +287,436 @@ example :
   · intro e; by_cases h : e = 0 <;> simp [h]
   · intro e x hx
     by_cases h : e = 0 <;> simp [h] at hx ⊢ <;> omega
+
+/-! ## Additions: announcements for every budget kind, batch boundary, closed form for every budget kind,
+      drop_last in the stream, update count, and the statements over the code-level `__iter__` -/
+
+/-- what an accepted constructor call gives to the lemmas: positive batch size, an epoch with room for a full
+    batch, and (with a main sampler of length `N`) enough indices per epoch -/
+theorem ctor_ok_lemma_hyps (a : Args) (sa : StartArg) (st : Start) (hctor : ctor a sa = .ok st)
+    (main : Nat → List Nat) (hmain : ∀ e, (main e).length = a.N) :
+    0 < a.B ∧ 0 < spe a ∧ a.B ≤ spe a ∧ ∀ e, spe a ≤ (main e).length := by
+  obtain ⟨hB, _, hS, hSN⟩ := ctor_ok_geometry a sa st hctor
+  exact ⟨hB, hS, (c04x_geom a (ctor_ok a sa st hctor).1).2.2.2.2.1, fun e => by rw [hmain e]; exact hSN⟩
+
+/-- **clause "epoch e announced via set_epoch before it starts", for EVERY budget kind (part 1)**: in every finished
+    run — epochs, updates or samples budget, any configs, any start checkpoint — the `set_epoch` calls are for
+    consecutive epochs starting at the start epoch (`e₀, e₀+1, …`, none skipped, none repeated), and there is at
+    least one. (`epochs_budget_exact` adds that with an epochs budget the last one is `E-1`.) -/
+theorem set_epoch_announces_consecutive_epochs (a : Args) (sa : StartArg) (st : Start)
+    (hctor : ctor a sa = .ok st) (main : Nat → List Nat) (hmain : ∀ e, (main e).length = a.N)
+    (side : Nat → Nat → List Nat) (n : Nat) (evs : List Ev) (h : l1 a main side n st = some evs) :
+    epochsOf evs = List.range' st.epoch (epochsOf evs).length ∧ 0 < (epochsOf evs).length := by
+  obtain ⟨_, hS, _, hmain'⟩ := ctor_ok_lemma_hyps a sa st hctor main hmain
+  refine ⟨c04x_l1_epochs_consecutive a main side hS hmain' n st evs h, ?_⟩
+  obtain ⟨body, he, _⟩ := c04x_l1_body a main side n st evs h
+  rw [he]; simp [epochsOf]
+
+/-- **clause "epoch e announced via set_epoch before it starts", for EVERY budget kind (part 2)**: wherever
+    `set_epoch(e)` stands in the stream of a finished run, what follows it IMMEDIATELY (no side pass in between) is
+    the first batch of epoch `e`: the first `batch_size` indices of the main sampler's iteration for epoch `e`,
+    flagged `F … F T`. Together with `main_stream_is_epoch_concatenation` (the batches of epoch `e` stand between
+    `set_epoch(e)` and `set_epoch(e+1)`): an epoch is announced before it starts and nothing of it comes earlier. -/
+theorem set_epoch_is_followed_by_the_epochs_first_batch (a : Args) (sa : StartArg) (st : Start)
+    (hctor : ctor a sa = .ok st) (main : Nat → List Nat) (hmain : ∀ e, (main e).length = a.N)
+    (side : Nat → Nat → List Nat) (n : Nat) (evs : List Ev) (h : l1 a main side n st = some evs) :
+    ∀ pre post e, evs = pre ++ Ev.setEpoch e :: post → chunkEvs ((main e).take a.B) <+: post := by
+  obtain ⟨_, hS, hBS, hmain'⟩ := ctor_ok_lemma_hyps a sa st hctor main hmain
+  exact c04x_l1_setEpoch_then_batch a main side hS hBS hmain' n st evs h
+
+/-- non-vacuity of the two announcement theorems: N=5, B=2, samples budget 7 (ends inside the second epoch), a side
+    config due every 2 updates. The announced epochs are `[0, 1] = range' 0 2`, and `set_epoch(1)` (after 8 events)
+    is followed by the batch `[4, 3]` = first 2 indices of epoch 1's order -/
+example :
+    let a : Args := ⟨5, 5, 2, false, none, .samples 7, [⟨none, some 2, none, none, 2, 3⟩]⟩
+    let main : Nat → List Nat := fun e => if e = 0 then [0, 1, 2, 3, 4] else [4, 3, 2, 1, 0]
+    let side : Nat → Nat → List Nat := fun _ _ => [0, 1]
+    let evs : List Ev :=
+      [.setEpoch 0, .idx false 0, .idx true 1, .idx false 2, .idx true 3, .idx false 5, .idx true 6, .idx true 4,
+       .setEpoch 1, .idx false 4, .idx true 3, .idx false 5, .idx true 6]
+    ctor a .none = .ok ⟨0, 0, 0⟩ ∧ l1 a main side 10 ⟨0, 0, 0⟩ = some evs ∧
+    epochsOf evs = List.range' 0 2 ∧
+    evs = evs.take 8 ++ Ev.setEpoch 1 :: evs.drop 9 ∧
+    chunkEvs ((main 1).take a.B) = [.idx false 4, .idx true 3] ∧
+    chunkEvs ((main 1).take a.B) <+: evs.drop 9 := by
+  refine ⟨rfl, by decide, by decide, by decide, by decide, ⟨[.idx false 5, .idx true 6], by decide⟩⟩
+
+/-- **clause "always on a batch boundary", main stream, no assumption on the interleaved samplers**: the last event
+    the main sampler contributes to a finished run is the END of a batch (flag `True`), and
+    `_InterleavedBatchSampler.__iter__` run on the main stream ends with an empty index buffer (its final
+    `assert len(idxs) == 0` holds) — for every budget kind, any configs, whatever the side samplers yield. -/
+theorem main_stream_ends_on_a_batch_boundary (a : Args) (sa : StartArg) (st : Start)
+    (hctor : ctor a sa = .ok st) (main : Nat → List Nat) (hmain : ∀ e, (main e).length = a.N)
+    (hmainlt : ∀ e x, x ∈ main e → x < a.mainDsLen)
+    (side : Nat → Nat → List Nat) (n : Nat) (evs : List Ev) (h : l1 a main side n st = some evs) :
+    (∃ pre i, mainProj a.mainDsLen evs = pre ++ [Ev.idx true i]) ∧
+    (batchSampler (mainProj a.mainDsLen evs)).2 = [] := by
+  obtain ⟨hB, hS, _, hmain'⟩ := ctor_ok_lemma_hyps a sa st hctor main hmain
+  have := c04x_l1_mainProj_ends a main side hB hS hmain' hmainlt n st evs h
+  exact ⟨this, c04x_batchSampler_endsFull this⟩
+
+/-- **clause "always on a batch boundary", whole stream incl. side passes, WITHOUT `SideOk`'s range half**: if every
+    interleaved sampler yields `len(sampler)` indices per pass (`c04x_SideLen` — the assumption the property makes of
+    the main sampler, made of the side samplers; nothing is assumed about the VALUES they yield, and nothing about
+    the main indices' range), the last event of every finished run is the end of a batch and the batch sampler
+    leaves no rest. What remains undischarged: `c04x_SideLen` itself cannot come from the constructor (it checks
+    nothing about what a config's sampler yields) and it is needed — see the counterexample below. -/
+theorem stream_ends_on_a_batch_boundary (a : Args) (sa : StartArg) (st : Start)
+    (hctor : ctor a sa = .ok st) (main : Nat → List Nat) (hmain : ∀ e, (main e).length = a.N)
+    (side : Nat → Nat → List Nat) (hside : c04x_SideLen a side)
+    (n : Nat) (evs : List Ev) (h : l1 a main side n st = some evs) :
+    (∃ pre i, evs = pre ++ [Ev.idx true i]) ∧ (batchSampler evs).2 = [] := by
+  obtain ⟨hB, hS, _, hmain'⟩ := ctor_ok_lemma_hyps a sa st hctor main hmain
+  have := c04x_l1_ends a main side hB hS hmain' hside n st evs h
+  exact ⟨this, c04x_batchSampler_endsFull this⟩
+
+/-- non-vacuity of both batch-boundary theorems (two configs, one with its own batch size; the run ends with a side
+    pass), and necessity of `c04x_SideLen`: with a side sampler that yields 2 indices but reports `len = 3` the run's
+    last event is NOT a batch end and the batch sampler is left with `[5, 6]` — while the main stream still ends on a
+    batch boundary -/
+example :
+    let a : Args := ⟨5, 5, 2, false, none, .updates 4,
+      [⟨none, some 2, none, some 2, 3, 3⟩, ⟨some 1, none, none, none, 2, 4⟩]⟩
+    let side : Nat → Nat → List Nat := fun i _ => if i = 0 then [0, 1, 2] else [3, 1]
+    let bad : Args := ⟨5, 5, 2, false, none, .updates 4, [⟨none, some 2, none, some 3, 3, 3⟩]⟩
+    (ctor a .none = .ok ⟨0, 0, 0⟩ ∧ c04x_SideLen a side ∧
+      (l1 a (fun _ => [0, 1, 2, 3, 4]) side 10 ⟨0, 0, 0⟩).map (fun evs => (evs.getLast?, (batchSampler evs).2)) =
+        some (some (.idx true 7), [])) ∧
+    (ctor bad .none = .ok ⟨0, 0, 0⟩ ∧
+      (l1 bad (fun _ => [0, 1, 2, 3, 4]) (fun _ _ => [0, 1]) 10 ⟨0, 0, 0⟩).map
+        (fun evs => (evs.getLast?, (batchSampler evs).2, (mainProj 5 evs).getLast?,
+          (batchSampler (mainProj 5 evs)).2)) =
+        some (some (.idx false 6), [5, 6], some (.idx true 1), [])) := by
+  refine ⟨⟨rfl, ?_, by decide⟩, rfl, by decide⟩
+  intro i c h u
+  match i with
+  | 0 => simp at h; subst h; simp
+  | 1 => simp at h; subst h; simp
+  | n + 2 => simp at h
+
+/-- **closed form of the main stream for EVERY budget kind, any configs, any start checkpoint** (the stopping point
+    in closed form): the main projection of a finished run is `k` WHOLE epochs `e₀, …, e₀+k-1` (each
+    `set_epoch(e)` + the first `samples_per_epoch` indices of the main sampler's iteration for `e`, cut into
+    batches of `B`) followed by `set_epoch(e₀+k)` and the first `j` batches of epoch `e₀+k`, `1 ≤ j ≤
+    updates_per_epoch` — nothing else. With it: the number of batches is `k·upe + j`, the number of main samples
+    `k·spe + min (j·B) spe`, the announced epochs are `e₀ … e₀+k`, and what the stream yields for each epoch
+    (`c04x_epochPart`) is the first `spe` indices of the sampler's iteration for a whole epoch, the first `j·B` of
+    those for the last one, nothing for any other epoch. The budget theorems fix `k, j`: `updates_budget_closed_form`,
+    `main_stream_is_epoch_concatenation_exact` (`k = E-e₀-1, j = upe`), `samples_budget_exact`. -/
+theorem main_stream_closed_form (a : Args) (sa : StartArg) (st : Start)
+    (hctor : ctor a sa = .ok st) (main : Nat → List Nat) (hmain : ∀ e, (main e).length = a.N)
+    (hmainlt : ∀ e x, x ∈ main e → x < a.mainDsLen)
+    (side : Nat → Nat → List Nat) (n : Nat) (evs : List Ev) (h : l1 a main side n st = some evs) :
+    ∃ k j, 1 ≤ j ∧ j ≤ upe a ∧
+      mainProj a.mainDsLen evs = epochConcat a main st.epoch k ++ c04x_epochHead a main (st.epoch + k) j ∧
+      countFull a.mainDsLen evs = k * upe a + j ∧
+      countMain a.mainDsLen evs = k * spe a + min (j * a.B) (spe a) ∧
+      epochsOf evs = List.range' st.epoch (k + 1) ∧
+      ∀ e, c04x_epochPart a.mainDsLen e none evs =
+        if st.epoch ≤ e ∧ e < st.epoch + k then (main e).take (spe a)
+        else if e = st.epoch + k then ((main e).take (spe a)).take (j * a.B) else [] := by
+  obtain ⟨hB, hS, _, hmain'⟩ := ctor_ok_lemma_hyps a sa st hctor main hmain
+  obtain ⟨k, j, hj1, hj, hform⟩ := c04x_l1_closed_form a main side hB hS hmain' hmainlt n st evs h
+  obtain ⟨c1, c2, c3⟩ := c04x_closed_form_counts a main hB hmain' hmainlt evs st.epoch k j hj hform
+  exact ⟨k, j, hj1, hj, hform, c1, c2, c3,
+    c04x_epochPart_closed_form a main hB hmainlt evs st.epoch k j hform⟩
+
+/-- **updates budget, closed form and stopping point**: with `updates = U` started at update counter `u₀ < U` the
+    main stream is exactly `(U-u₀-1) / upe` whole epochs followed by the first `(U-u₀-1) % upe + 1` batches of the
+    next epoch — i.e. exactly the first `U - u₀` batches of the epoch-by-epoch concatenation, not one more or fewer,
+    whatever interleaved configs run in between -/
+theorem updates_budget_closed_form (a : Args) (sa : StartArg) (st : Start)
+    (hctor : ctor a sa = .ok st) (main : Nat → List Nat) (hmain : ∀ e, (main e).length = a.N)
+    (hmainlt : ∀ e x, x ∈ main e → x < a.mainDsLen)
+    (side : Nat → Nat → List Nat) (Ub : Nat) (hbud : a.budget = .updates Ub) (hlt : st.update < Ub)
+    (n : Nat) (evs : List Ev) (h : l1 a main side n st = some evs) :
+    mainProj a.mainDsLen evs =
+      epochConcat a main st.epoch ((Ub - st.update - 1) / upe a) ++
+        c04x_epochHead a main (st.epoch + (Ub - st.update - 1) / upe a) ((Ub - st.update - 1) % upe a + 1) := by
+  obtain ⟨hB, hS, _, hmain'⟩ := ctor_ok_lemma_hyps a sa st hctor main hmain
+  obtain ⟨k, j, hj1, hj, hform, c1, _⟩ := main_stream_closed_form a sa st hctor main hmain hmainlt side n evs h
+  have hcnt := updates_budget_exact a main side hB hS hmain' hmainlt Ub hbud n st evs hlt h
+  obtain ⟨hk, hj'⟩ := c04x_divmod_unique (upe a) (Ub - st.update) k j hj1 hj (by omega)
+  rw [← hk, ← hj']
+  exact hform
+
+/-- **samples budget, closed form and stopping point**: with `samples = S` started at sample counter `s₀ < S` the main
+    stream is `k` whole epochs followed by the first `j` batches of the next epoch where `(k, j)` is the FIRST point of
+    the epoch-by-epoch batch sequence at which the sample counter reaches `S`: after these batches the counter is
+    `≥ S`, one batch earlier it was still `< S` — the run stops right after the update that reaches the budget -/
+theorem samples_budget_closed_form (a : Args) (sa : StartArg) (st : Start)
+    (hctor : ctor a sa = .ok st) (main : Nat → List Nat) (hmain : ∀ e, (main e).length = a.N)
+    (hmainlt : ∀ e x, x ∈ main e → x < a.mainDsLen)
+    (side : Nat → Nat → List Nat) (Sb : Nat) (hbud : a.budget = .samples Sb) (hlt : st.sample < Sb)
+    (n : Nat) (evs : List Ev) (h : l1 a main side n st = some evs) :
+    ∃ k j, 1 ≤ j ∧ j ≤ upe a ∧
+      mainProj a.mainDsLen evs = epochConcat a main st.epoch k ++ c04x_epochHead a main (st.epoch + k) j ∧
+      st.sample + (k * spe a + min ((j - 1) * a.B) (spe a)) < Sb ∧
+      Sb ≤ st.sample + (k * spe a + min (j * a.B) (spe a)) := by
+  obtain ⟨hB, hS, _, hmain'⟩ := ctor_ok_lemma_hyps a sa st hctor main hmain
+  obtain ⟨k, j, hj1, hj, hform, _, c2, _⟩ := main_stream_closed_form a sa st hctor main hmain hmainlt side n evs h
+  obtain ⟨s1, r, hlast, _, _, hr, s2⟩ := samples_budget_exact a main side hB hS hmain' hmainlt Sb hbud n st evs hlt h
+  have hl := c04x_mainSizes_closed_form_last a main hB hmain' hmainlt evs st.epoch k j hj1 hj hform
+  rw [hl] at hlast
+  have hr' : r = min (j * a.B) (spe a) - min ((j - 1) * a.B) (spe a) := by
+    injection hlast with hlast
+    injection hlast with hlast _
+    exact hlast.symm
+  have hmono : (j - 1) * a.B ≤ j * a.B := Nat.mul_le_mul_right _ (by omega)
+  refine ⟨k, j, hj1, hj, hform, ?_, ?_⟩
+  · rw [c2] at s2; omega
+  · rw [c2] at s1; exact s1
+
+/-- non-vacuity of `samples_budget_closed_form`: N=5, B=2, no drop_last (`spe = 5`), samples budget 7: one whole
+    epoch and `j = 1` batch of the next: `0 + (1·5 + min (0·2) 5) = 5 < 7 ≤ 0 + (1·5 + min (1·2) 5) = 7` -/
+example :
+    let a : Args := ⟨5, 5, 2, false, none, .samples 7, [⟨none, some 2, none, none, 2, 3⟩]⟩
+    let main : Nat → List Nat := fun e => if e = 0 then [0, 1, 2, 3, 4] else [4, 3, 2, 1, 0]
+    let side : Nat → Nat → List Nat := fun _ _ => [0, 1]
+    ctor a .none = .ok ⟨0, 0, 0⟩ ∧ a.budget = .samples 7 ∧
+    (l1 a main side 10 ⟨0, 0, 0⟩).map (mainProj a.mainDsLen) =
+      some (epochConcat a main 0 1 ++ c04x_epochHead a main (0 + 1) 1) ∧
+    0 + (1 * spe a + min ((1 - 1) * a.B) (spe a)) < 7 ∧ 7 ≤ 0 + (1 * spe a + min (1 * a.B) (spe a)) := by
+  refine ⟨rfl, rfl, by decide, by decide, by decide⟩
+
+/-- non-vacuity of `main_stream_closed_form` / `updates_budget_closed_form`: N=7, B=2, drop_last with
+    drop_last_batch_size=4 (so `spe = 4`, `upe = 2`; indices 4,5,6 of an epoch's order are dropped), updates budget
+    3, a side config due every 2 updates. The stream has side indices; its main projection is one whole epoch
+    (`(3-0-1)/2 = 1`) and the first `(3-0-1)%2+1 = 1` batch of epoch 1 -/
+example :
+    let a : Args := ⟨7, 7, 2, true, some 4, .updates 3, [⟨none, some 2, none, none, 2, 3⟩]⟩
+    let main : Nat → List Nat := fun e => if e = 0 then [0, 1, 2, 3, 4, 5, 6] else [6, 5, 4, 3, 2, 1, 0]
+    let side : Nat → Nat → List Nat := fun _ _ => [0, 1]
+    let evs : List Ev :=
+      [.setEpoch 0, .idx false 0, .idx true 1, .idx false 2, .idx true 3, .idx false 7, .idx true 8,
+       .setEpoch 1, .idx false 6, .idx true 5]
+    ctor a .none = .ok ⟨0, 0, 0⟩ ∧ (∀ e, (main e).length = a.N) ∧ (∀ e x, x ∈ main e → x < a.mainDsLen) ∧
+    spe a = 4 ∧ upe a = 2 ∧ l1 a main side 10 ⟨0, 0, 0⟩ = some evs ∧
+    mainProj a.mainDsLen evs = epochConcat a main 0 1 ++ c04x_epochHead a main (0 + 1) 1 ∧
+    epochConcat a main 0 1 ++ c04x_epochHead a main (0 + 1) 1 =
+      [.setEpoch 0, .idx false 0, .idx true 1, .idx false 2, .idx true 3, .setEpoch 1, .idx false 6, .idx true 5] ∧
+    c04x_epochPart a.mainDsLen 0 none evs = [0, 1, 2, 3] ∧ c04x_epochPart a.mainDsLen 1 none evs = [6, 5] := by
+  refine ⟨rfl, ?_, ?_, by decide, by decide, by decide, by decide, by decide, by decide, by decide⟩
+  · intro e; by_cases h : e = 0 <;> simp [h]
+  · intro e x hx
+    by_cases h : e = 0 <;> simp [h] at hx ⊢ <;> omega
+
+/-- **update count for an epochs budget**: a run with `epochs = E` started at the start of epoch `e₀ < E` makes
+    exactly `(E - e₀) · updates_per_epoch` updates (main batches), `updates_per_epoch = ⌈samples_per_epoch / B⌉` -/
+theorem epochs_budget_update_count (a : Args) (sa : StartArg) (st : Start)
+    (hctor : ctor a sa = .ok st) (main : Nat → List Nat) (hmain : ∀ e, (main e).length = a.N)
+    (hmainlt : ∀ e x, x ∈ main e → x < a.mainDsLen)
+    (side : Nat → Nat → List Nat) (E : Nat) (hbud : a.budget = .epochs E) (hlt : st.epoch < E)
+    (n : Nat) (evs : List Ev) (h : l1 a main side n st = some evs) :
+    countFull a.mainDsLen evs = (E - st.epoch) * upe a := by
+  obtain ⟨hB, _, _, hmain'⟩ := ctor_ok_lemma_hyps a sa st hctor main hmain
+  rw [← c04x_countFull_mainProj,
+    main_stream_is_epoch_concatenation_exact a sa st hctor main hmain hmainlt side E hbud hlt n evs h]
+  exact (c04x_counts_epochConcat a main hB hmain' hmainlt (E - st.epoch) st.epoch).1
+
+/-- non-vacuity of `epochs_budget_update_count`: N=5, B=2, no drop_last (`upe = 3`), epochs budget 2: 6 updates -/
+example :
+    let a : Args := ⟨5, 5, 2, false, none, .epochs 2, [⟨none, some 2, none, none, 2, 3⟩]⟩
+    ctor a .none = .ok ⟨0, 0, 0⟩ ∧ upe a = 3 ∧
+    (l1 a (fun _ => [0, 1, 2, 3, 4]) (fun _ _ => [0, 1]) 10 ⟨0, 0, 0⟩).map (countFull a.mainDsLen) =
+      some ((2 - 0) * upe a) := by
+  refine ⟨rfl, by decide, by decide⟩
+
+/-- **clause "that remainder being dropped under drop_last (in units of drop_last_batch_size if given)", on the
+    stream**: let `e` be an epoch the run goes through completely — the next epoch is announced in the stream, or
+    the budget is an epochs budget covering `e`. Then what the stream yields for epoch `e` (the main indices between
+    `set_epoch(e)` and the next `set_epoch`) is EXACTLY the first `samples_per_epoch` indices of the main sampler's
+    iteration for `e`, in order; the rest of that iteration, `(main e).drop spe`, is what is dropped (stream part ++
+    dropped = the sampler's iteration; with distinct indices no dropped index occurs in the epoch's part).
+    Under drop_last `spe = (N / unit) · unit` and `N % unit` indices are dropped, `unit = drop_last_batch_size or
+    batch_size`; without drop_last the epoch contains all `N` indices. -/
+theorem drop_last_in_the_stream (a : Args) (sa : StartArg) (st : Start)
+    (hctor : ctor a sa = .ok st) (main : Nat → List Nat) (hmain : ∀ e, (main e).length = a.N)
+    (hmainlt : ∀ e x, x ∈ main e → x < a.mainDsLen)
+    (side : Nat → Nat → List Nat) (n : Nat) (evs : List Ev) (h : l1 a main side n st = some evs)
+    (e : Nat) (he0 : st.epoch ≤ e)
+    (hwhole : e + 1 ∈ epochsOf evs ∨ ∃ E, a.budget = .epochs E ∧ st.epoch < E ∧ e < E) :
+    c04x_epochPart a.mainDsLen e none evs = (main e).take (spe a) ∧
+    c04x_epochPart a.mainDsLen e none evs ++ (main e).drop (spe a) = main e ∧
+    (c04x_epochPart a.mainDsLen e none evs).length = spe a ∧
+    (a.dropLast = true → spe a = a.N / c04x_dropUnit a * c04x_dropUnit a ∧
+      ((main e).drop (spe a)).length = a.N % c04x_dropUnit a) ∧
+    (a.dropLast = false → c04x_epochPart a.mainDsLen e none evs = main e) ∧
+    ((main e).Nodup → ∀ x ∈ (main e).drop (spe a), x ∉ c04x_epochPart a.mainDsLen e none evs) := by
+  obtain ⟨hB, hS, _, hmain'⟩ := ctor_ok_lemma_hyps a sa st hctor main hmain
+  obtain ⟨k, j, hj1, hj, _, _, c2, c3, hpart⟩ :=
+    main_stream_closed_form a sa st hctor main hmain hmainlt side n evs h
+  have hP : c04x_epochPart a.mainDsLen e none evs = (main e).take (spe a) := by
+    rw [hpart e]
+    rcases hwhole with hw | ⟨E, hbud, hlt, heE⟩
+    · rw [c3, List.mem_range'_1] at hw
+      rw [if_pos ⟨he0, by omega⟩]
+    · have h1 := epochs_budget_exact a main side E hbud n st evs hlt h
+      have h2 := epochs_budget_sample_count a main side hB hS hmain' hmainlt E hbud n st evs hlt h
+      have hk : k + 1 = E - st.epoch := by
+        have := congrArg List.length (c3.symm.trans h1)
+        simpa using this
+      by_cases hlast : e < st.epoch + k
+      · rw [if_pos ⟨he0, hlast⟩]
+      · have hek : e = st.epoch + k := by omega
+        rw [if_neg (by omega), if_pos hek]
+        rw [← hk, Nat.succ_mul] at h2
+        have hge : spe a ≤ j * a.B := by omega
+        exact List.take_of_length_le (by rw [List.length_take]; omega)
+  have hlen : ((main e).take (spe a)).length = spe a := by
+    rw [List.length_take]; exact Nat.min_eq_left (hmain' e)
+  refine ⟨hP, by rw [hP]; exact List.take_append_drop _ _, by rw [hP]; exact hlen, ?_, ?_, ?_⟩
+  · intro hdl
+    have hsp := (c04x_spe_unit a).1 hdl
+    refine ⟨hsp, ?_⟩
+    rw [List.length_drop, hmain e, hsp]
+    have := Nat.div_add_mod a.N (c04x_dropUnit a)
+    rw [Nat.mul_comm] at this
+    omega
+  · intro hdl
+    rw [hP, (c04x_spe_unit a).2 hdl]
+    exact List.take_of_length_le (by rw [hmain e]; exact Nat.le_refl _)
+  · intro hnd x hx
+    rw [hP]
+    have hsplit : (main e).take (spe a) ++ (main e).drop (spe a) = main e := List.take_append_drop _ _
+    rw [← hsplit] at hnd
+    intro hmem
+    exact (List.nodup_append.mp hnd).2.2 x hmem x hx rfl
+
+/-- non-vacuity of `drop_last_in_the_stream`: N=7, B=2, drop_last_batch_size=4, epochs budget 2 (second disjunct of
+    `hwhole` for epoch 1; first disjunct for epoch 0: `set_epoch(1)` is in the stream). Each epoch yields 4 = 7/4·4
+    indices, the 3 = 7 % 4 dropped ones `[4,5,6]` resp. `[2,1,0]` do not occur in their epoch's part -/
+example :
+    let a : Args := ⟨7, 7, 2, true, some 4, .epochs 2, [⟨none, some 2, none, none, 2, 3⟩]⟩
+    let main : Nat → List Nat := fun e => if e = 0 then [0, 1, 2, 3, 4, 5, 6] else [6, 5, 4, 3, 2, 1, 0]
+    let side : Nat → Nat → List Nat := fun _ _ => [0, 1]
+    ctor a .none = .ok ⟨0, 0, 0⟩ ∧ (∀ e, (main e).length = a.N) ∧ (∀ e x, x ∈ main e → x < a.mainDsLen) ∧
+    (l1 a main side 10 ⟨0, 0, 0⟩).map (fun evs => (decide (0 + 1 ∈ epochsOf evs),
+        c04x_epochPart a.mainDsLen 0 none evs, c04x_epochPart a.mainDsLen 1 none evs)) =
+      some (true, [0, 1, 2, 3], [6, 5, 4, 3]) ∧
+    a.budget = .epochs 2 ∧ c04x_dropUnit a = 4 ∧ spe a = 7 / 4 * 4 ∧ (main 0).drop (spe a) = [4, 5, 6] ∧
+    (main 1).drop (spe a) = [2, 1, 0] ∧ (main 1).Nodup := by
+  refine ⟨rfl, ?_, ?_, by decide, rfl, by decide, by decide, by decide, by decide, by decide⟩
+  · intro e; by_cases h : e = 0 <;> simp [h]
+  · intro e x hx
+    by_cases h : e = 0 <;> simp [h] at hx ⊢ <;> omega
+
+/-- **all of C04 about one finished run of the per-update stream, in one bundle** (fields of `c04x_MainStreamSpec`:
+    prefix of the epoch concatenation, closed form for every budget kind, announcements, batch boundary, batch sizes,
+    exact stopping point per budget kind). Hypotheses: accepted constructor call; main sampler yields `len` indices
+    (property's domain) that are indices of its data source; start checkpoint strictly before the budget. -/
+theorem l1_main_stream_spec (a : Args) (sa : StartArg) (st : Start)
+    (hctor : ctor a sa = .ok st) (main : Nat → List Nat) (hmain : ∀ e, (main e).length = a.N)
+    (hmainlt : ∀ e x, x ∈ main e → x < a.mainDsLen)
+    (side : Nat → Nat → List Nat) (hbefore : before a.budget (l1Start main st))
+    (n : Nat) (evs : List Ev) (h : l1 a main side n st = some evs) :
+    c04x_MainStreamSpec a main side st evs := by
+  obtain ⟨hB, hS, _, hmain'⟩ := ctor_ok_lemma_hyps a sa st hctor main hmain
+  refine ⟨main_stream_is_epoch_concatenation a sa st hctor main hmain hmainlt side n evs h,
+    main_stream_closed_form a sa st hctor main hmain hmainlt side n evs h,
+    set_epoch_is_followed_by_the_epochs_first_batch a sa st hctor main hmain side n evs h,
+    main_stream_ends_on_a_batch_boundary a sa st hctor main hmain hmainlt side n evs h,
+    fun hside => stream_ends_on_a_batch_boundary a sa st hctor main hmain side hside n evs h,
+    only_an_epochs_last_batch_is_short a main side hB hS hmain' hmainlt n st evs h, ?_, ?_, ?_⟩
+  · intro Ub hbud
+    have hlt : st.update < Ub := by rw [hbud] at hbefore; simpa [before, l1Start] using hbefore
+    exact ⟨updates_budget_exact a main side hB hS hmain' hmainlt Ub hbud n st evs hlt h,
+      updates_budget_closed_form a sa st hctor main hmain hmainlt side Ub hbud hlt n evs h⟩
+  · intro Sb hbud
+    have hlt : st.sample < Sb := by rw [hbud] at hbefore; simpa [before, l1Start] using hbefore
+    exact ⟨samples_budget_exact a main side hB hS hmain' hmainlt Sb hbud n st evs hlt h,
+      samples_budget_closed_form a sa st hctor main hmain hmainlt side Sb hbud hlt n evs h⟩
+  · intro E hbud
+    have hlt : st.epoch < E := by rw [hbud] at hbefore; simpa [before, l1Start] using hbefore
+    exact ⟨main_stream_is_epoch_concatenation_exact a sa st hctor main hmain hmainlt side E hbud hlt n evs h,
+      epochs_budget_exact a main side E hbud n st evs hlt h,
+      epochs_budget_sample_count a main side hB hS hmain' hmainlt E hbud n st evs hlt h,
+      epochs_budget_update_count a sa st hctor main hmain hmainlt side E hbud hlt n evs h⟩
+
+/-- **the statements over the code-level loop (`iter` = the model of `InterleavedSampler.__iter__`, running
+    `_training_loop` sample by sample)**: for every accepted constructor call, every main sampler that yields `len`
+    indices of its data source per epoch, any interleaved configs / side samplers, every budget kind, and a start
+    checkpoint strictly before the budget: `__iter__` ends by itself — for every fuel above the explicit bound
+    `meas` it returns one and the same stream `evs`, and no fuel makes it return anything else — and that stream has
+    every property of the bundle `c04x_MainStreamSpec`: main projection = initial segment of the epoch concatenation,
+    closed form (`k` whole epochs + `j` batches), announcements, batch boundary, batch sizes, and the exact stopping
+    point for each budget kind (`updates_exact`, `samples_exact`, `epochs_exact`). -/
+theorem iter_main_stream_spec (a : Args) (sa : StartArg) (st : Start)
+    (hctor : ctor a sa = .ok st) (main : Nat → List Nat) (hmain : ∀ e, (main e).length = a.N)
+    (hmainlt : ∀ e x, x ∈ main e → x < a.mainDsLen)
+    (side : Nat → Nat → List Nat) (hbefore : before a.budget (l1Start main st)) :
+    ∃ evs,
+      (∀ fuel, meas a (l1Start main st) < fuel → iter a st main side fuel = .ok evs) ∧
+      (∀ fuel evs', iter a st main side fuel = .ok evs' → evs' = evs) ∧
+      c04x_MainStreamSpec a main side st evs := by
+  obtain ⟨evs, hl1, htrain⟩ := train_terminates_and_refines a sa st hctor main hmain side hbefore
+  have hz := c04x_not_zeroBudget_of_before a.budget _ hbefore
+  refine ⟨evs, ?_, ?_, l1_main_stream_spec a sa st hctor main hmain hmainlt side hbefore _ evs hl1⟩
+  · intro fuel hfuel
+    exact (c04x_iter_train a st main side fuel hz evs).mpr (htrain fuel hfuel)
+  · intro fuel evs' hit
+    have h1 := (c04x_iter_train a st main side fuel hz evs').mp hit
+    have h2 := htrain (meas a (l1Start main st) + 1) (Nat.lt_succ_self _)
+    exact c04x_trainLoop_unique a main side _ _ _ _ _ h1 h2
+
+/-- the hypothesis "start checkpoint strictly before the budget" of `iter_main_stream_spec` /
+    `train_terminates_and_refines` holds by itself for a run that is not resumed (no `start_*` argument) whenever the
+    budget is not 0 (budget 0 is the `_eval_loop` mode, see `zero_budget_has_empty_main_stream`) -/
+theorem fresh_start_is_before_budget (a : Args) (st : Start) (hctor : ctor a .none = .ok st)
+    (hz : zeroBudget a.budget = false) (main : Nat → List Nat) : before a.budget (l1Start main st) := by
+  have h := (ctor_ok a .none st hctor).2.2
+  simp only [startOf] at h
+  injection h with h
+  subst h
+  unfold before l1Start
+  unfold zeroBudget at hz
+  cases hb : a.budget with
+  | epochs e => rw [hb] at hz; simp only [beq_eq_false_iff_ne, ne_eq] at hz ⊢; omega
+  | updates u => rw [hb] at hz; simp only [beq_eq_false_iff_ne, ne_eq] at hz ⊢; omega
+  | samples s => rw [hb] at hz; simp only [beq_eq_false_iff_ne, ne_eq] at hz ⊢; omega
+
+/-- non-vacuity of `iter_main_stream_spec` on the code-level loop: N=7, B=2, drop_last_batch_size=4, updates budget
+    3, resumed at `start_epoch = 1` (checkpoint (1, 2, 4), before the budget), a side config due every 2 updates:
+    the hypotheses hold, the bound is `meas = 1`, and `iter` with fuel 2 returns the stream -/
+example :
+    let a : Args := ⟨7, 7, 2, true, some 4, .updates 3, [⟨none, some 2, none, none, 2, 3⟩]⟩
+    let main : Nat → List Nat := fun e => if e = 0 then [0, 1, 2, 3, 4, 5, 6] else [6, 5, 4, 3, 2, 1, 0]
+    let side : Nat → Nat → List Nat := fun _ _ => [0, 1]
+    ctor a (.epoch 1) = .ok ⟨1, 2, 4⟩ ∧ (∀ e, (main e).length = a.N) ∧ (∀ e x, x ∈ main e → x < a.mainDsLen) ∧
+    before a.budget (l1Start main ⟨1, 2, 4⟩) ∧ meas a (l1Start main ⟨1, 2, 4⟩) = 1 ∧
+    iter a ⟨1, 2, 4⟩ main side 2 = .ok [.setEpoch 1, .idx false 6, .idx true 5] := by
+  refine ⟨rfl, ?_, ?_, by simp [before, l1Start], by decide, rfl⟩
+  · intro e; by_cases h : e = 0 <;> simp [h]
+  · intro e x hx
+    by_cases h : e = 0 <;> simp [h] at hx ⊢ <;> omega
+
+/-- **budget value 0 (`_eval_loop`)**: with `epochs = 0`, `updates = 0` or `samples = 0` `__iter__` does not run the
+    training loop at all: whatever it returns contains no main index and no `set_epoch` (the main stream is the empty
+    concatenation of 0 epochs), and it returns only from the checkpoint (0, 0, 0) -/
+theorem zero_budget_has_empty_main_stream (a : Args) (st : Start) (main : Nat → List Nat)
+    (side : Nat → Nat → List Nat) (fuel : Nat) (hz : zeroBudget a.budget = true) (evs : List Ev)
+    (h : iter a st main side fuel = .ok evs) :
+    mainProj a.mainDsLen evs = epochConcat a main st.epoch 0 ∧ mainProj a.mainDsLen evs = [] ∧
+      st = ⟨0, 0, 0⟩ := by
+  unfold iter at h
+  rw [hz] at h
+  simp only [if_true] at h
+  by_cases hs : st.epoch = 0 ∧ st.update = 0 ∧ st.sample = 0
+  · rw [if_pos hs] at h
+    have : evs = evalLoop a side := by injection h with h; exact h.symm
+    rw [this, c04x_mainProj_evalLoop]
+    refine ⟨rfl, rfl, ?_⟩
+    cases st
+    simp only at hs
+    simp [hs]
+  · rw [if_neg hs] at h
+    cases h
+
+/-- non-vacuity of `zero_budget_has_empty_main_stream`: `epochs = 0` with one config: only side indices come out -/
+example :
+    let a : Args := ⟨5, 5, 2, false, none, .epochs 0, [⟨some 1, none, none, none, 2, 3⟩]⟩
+    zeroBudget a.budget = true ∧
+    iter a ⟨0, 0, 0⟩ (fun _ => [0, 1, 2, 3, 4]) (fun _ _ => [0, 1]) 0 = .ok [.idx false 5, .idx true 6] := by
+  refine ⟨rfl, rfl⟩
 
 end KDVerif.C04
